@@ -35,3 +35,6 @@ Definition default_max_headers : N := 128.
 (* _read_headers: `if len(lines) > self._max_headers`; read: `if len(data) > self._client_max_size` inside the loop *)
 Definition too_many_headers (nlines maxh : N) : bool := (maxh <? nlines).
 Definition over_client_max (datalen maxsize : N) : bool := (maxsize <? datalen).
+(* read_chunk: `encoding and encoding.lower() == 'base64'`; _get_part_reader passes the parent's limits to a nested reader *)
+Definition base64_token_case_insensitive : bool := true.
+Definition nested_reader_inherits_limits : bool := true.
